@@ -598,6 +598,13 @@ func normValue(fn *ssa.Function, v ssa.Value, depth int) string {
 	case *ssa.UnOp:
 		if x.Op == token.MUL {
 			if ia, ok := x.X.(*ssa.IndexAddr); ok {
+				// an element of a re-sliced value is an element of the value: xs[lo:][i] = xs[lo+i]
+				if sl, isS := ia.X.(*ssa.Slice); isS && sl.Low != nil && sl.Max == nil {
+					if k, isK := constInt(ia.Index); isK && k == 0 {
+						return normValue(fn, sl.X, depth+1) + "[" + normValue(fn, sl.Low, depth+1) + "]"
+					}
+					return normValue(fn, sl.X, depth+1) + "[(" + normValue(fn, sl.Low, depth+1) + "+" + normValue(fn, ia.Index, depth+1) + ")]"
+				}
 				return normValue(fn, ia.X, depth+1) + "[" + normValue(fn, ia.Index, depth+1) + "]"
 			}
 			return "*" + normValue(fn, x.X, depth+1)
